@@ -276,6 +276,31 @@ func vfAclExec(alphabet []vfAclOp) func(hist []int, last bool) vfXResult {
 							Detail: map[string]any{"op": op.String(), "failing_call": failed}})
 					}
 				}
+				// C03 after a failed request: who may publish is still decided by the permissions in force
+				// before it (the store), not by a half-applied change left in the loaded topic
+				if post.alive() && code >= 400 {
+					for i, u := range t.users {
+						un := t.uname(u.uid)
+						ss, ok := post.live(un)
+						if !ok || i >= len(t.cl) {
+							continue
+						}
+						if c1, _ := t.cl[i].Req(`{"sub":{"id":"$ID","topic":"%s"}}`, t.grp); c1 >= 300 {
+							continue
+						}
+						now := t.snap()
+						if cur, ok := now.live(un); !ok || cur.Want != ss.Want || cur.Given != ss.Given {
+							continue // the probe's own {sub} changed the permissions
+						}
+						c2, _ := t.cl[i].Req(`{"pub":{"id":"$ID","topic":"%s","content":"probe after the failure"}}`, t.grp)
+						want := (ss.Want & ss.Given).IsWriter()
+						if c2 != 0 && (c2 == 202) != want {
+							res.Violations = append(res.Violations, vfXViolation{Key: fmt.Sprintf("C03:publish-decision-after-failed-request:%v-but-%d:%s@%s", want, c2, kind, failed),
+								What:   fmt.Sprintf("%s: store call #%d (%s) failed (reply %d); afterwards %s, whose stored permissions are %s/%s, publishes and is answered %d", op, vfXFault.K, failed, code, un, ss.Want, ss.Given, c2),
+								Detail: map[string]any{"op": op.String(), "failing_call": failed}})
+						}
+					}
+				}
 				// the single-owner and authorisation rules hold under store failures too
 				for _, v := range vfAclOracles(t, pre, op, code, frames, post) {
 					if strings.HasPrefix(v.Key, "C13:unanswered") || strings.HasPrefix(v.Key, "C08:") {
@@ -608,4 +633,5 @@ func TestVerifC10Acl(t *testing.T) { vfXSearch(t, "C10", "acl", vfAclModelName()
 func TestVerifC10P2P(t *testing.T) { vfXSearch(t, "C10", "p2p", vfP2PModelName()) }
 func TestVerifC08AclFault(t *testing.T) { vfXSearch(t, "C08", "acl-fault", vfAclModelName()+"-fault") }
 func TestVerifC06AclFault(t *testing.T) { vfXSearch(t, "C06", "acl-fault", vfAclModelName()+"-fault") }
+func TestVerifC03AclFault(t *testing.T) { vfXSearch(t, "C03", "acl-fault", vfAclModelName()+"-fault") }
 func TestVerifC13AclFault(t *testing.T) { vfXSearch(t, "C13", "acl-fault", vfAclModelName()+"-fault") }
